@@ -10,7 +10,11 @@ catalogue and compares it with an independent dense float64 computation written 
 
 The kernel matrices of the reference come from re-implementations that only read PARAMETER VALUES from the
 library objects (Matern-5/2 iso/ARD/with and without covariance scale, tuple form (kernel, covariance_scale),
-Kumaraswamy warping, product kernel, exponential-decay resource kernel + its mean function), and from two
+Kumaraswamy warping, product kernel, exponential-decay resource kernel + its mean function, and WarpedKernel around
+inner kernels whose diagonal DEPENDS ON X: exponential-decay kernel alone / inside a ProductKernelFunction / inside a
+RangeKernelFunction, with one or two Warping blocks covering (or, rarely, missing) the resource coordinate; the monitor
+raises unless >= 3 cases have a warping with parameters != 1 on a coordinate the inner diagonal depends on, so that
+kernel.diagonal(X) == diag(kernel(X, X)) is a non-trivial statement about WarpedKernel.diagonal), and from two
 hand-written KernelFunction subclasses (RBF, fixed positive-definite table) for which the kernel matrix of the
 library run and of the reference are bit-identical, so that the posterior algebra is checked independently of the
 Matern code and with round-off-only tolerances.
@@ -637,9 +641,194 @@ def build_kernel(E, kind, d, rs, mode):
         out["table_size"] = p
         if rs.uniform() < 0.5:
             out["outer_scale"] = float([0.3, 2.5][rs.randint(2)])
+    elif kind in XDIAG_KINDS:
+        _build_warped_xdiag(E, kind, d, rs, mode, out)
     else:
         raise ValueError(kind)
     return out
+
+
+# --------------------------------------------------------------------------------------------------------------
+# warped kernels around inner kernels whose diagonal depends on X (exponential-decay resource kernel, alone or
+# inside a product / range kernel): WarpedKernel.diagonal must warp X before calling the inner diagonal
+# --------------------------------------------------------------------------------------------------------------
+XDIAG_KINDS = ("warped-expdecay", "warped-product-expdecay", "warped-range-expdecay")
+
+
+class _Node:
+    """lib kernel + setter + reader; read() -> dict(params, kfun(A, B), abs_scale, sqn)"""
+
+    def __init__(self, lib, dim, setter, reader, resource_cols, label):
+        self.lib, self.dim, self.set, self.read, self.resource_cols, self.label = lib, dim, setter, reader, resource_cols, label
+
+
+def _node_matern(E, dd, rs, mode):
+    ARD = bool(rs.uniform() < 0.5)
+    k = _new_matern(E, dd, ARD)
+
+    def _read():
+        ib, cs_ = _read_matern(k)
+        return {
+            "params": {"inv_bw": ib.tolist(), "covariance_scale": cs_},
+            "kfun": (lambda A, B: ref_matern52(A, B, ib, cs_)),
+            "abs_scale": cs_,
+            "sqn": float(np.sum(np.square(ib))),
+        }
+
+    return _Node(k, dd, (lambda: _set_matern(E, k, rs, mode)), _read, [], "matern52(%d%s)" % (dd, ",ARD" if ARD else ""))
+
+
+def _node_expdecay(E, dd, rs, mode):
+    """exponential-decay resource kernel over (x, r), x of dimension dd - 1, r last"""
+    nx = _node_matern(E, dd - 1, rs, mode)
+    mx = E.M.ScalarMeanFunction()
+    mx.collect_params().initialize()
+    delta_fixed = [None, 0.0, 0.4][int(rs.randint(3))]
+    k = E.K.ExponentialDecayResourcesKernelFunction(nx.lib, mx, delta_fixed_value=delta_fixed)
+    k.collect_params().initialize()
+
+    def _set():
+        nx.set()
+        vals = dict(k.get_params())
+        vals["alpha"] = _draw(rs, 1e-6, 250.0, mode, 0.3, 3.0)
+        vals["mean_lam"] = _draw(rs, 1e-4, 50.0, mode, 0.2, 2.0)
+        vals["gamma"] = _draw(rs, 1e-4, 1.0, mode, 0.2, 1.0)
+        if delta_fixed is None:
+            vals["delta"] = float(rs.uniform()) if mode != "edge" else float(rs.randint(2))
+        vals["meanx_mean_value"] = float(rs.uniform(-1.0, 1.0))
+        k.set_params(vals)
+
+    def _read():
+        got = k.get_params()
+        rx = nx.read()
+        al, ml, ga = _f(got["alpha"]), _f(got["mean_lam"]), _f(got["gamma"])
+        de = _f(got["delta"]) if delta_fixed is None else float(delta_fixed)
+        mv = _f(got["meanx_mean_value"])
+        muf = lambda A: np.full((np.asarray(A).shape[0],), mv)
+        params = {"kernelx": rx["params"], "alpha": al, "mean_lam": ml, "gamma": ga, "delta": de, "delta_fixed": delta_fixed is not None, "meanx": mv}
+        return {
+            "params": params,
+            "kfun": (lambda A, B: ref_expdecay_kernel(A, B, rx["kfun"], muf, al, ml, ga, de)),
+            "abs_scale": max(rx["abs_scale"], (ga + abs(mv)) ** 2),
+            "sqn": rx["sqn"],
+        }
+
+    return _Node(k, dd, _set, _read, [dd - 1], "expdecay(%s)" % nx.label)
+
+
+def _node_product(E, n1, n2):
+    k = E.K.ProductKernelFunction(n1.lib, n2.lib)
+    k.collect_params().initialize()
+    d1 = n1.dim
+
+    def _read():
+        r1, r2 = n1.read(), n2.read()
+        return {
+            "params": {"kernel1": r1["params"], "kernel2": r2["params"]},
+            "kfun": (lambda A, B: r1["kfun"](np.asarray(A)[:, :d1], np.asarray(B)[:, :d1]) * r2["kfun"](np.asarray(A)[:, d1:], np.asarray(B)[:, d1:])),
+            "abs_scale": r1["abs_scale"] * r2["abs_scale"],
+            "sqn": max(r1["sqn"], r2["sqn"]),
+        }
+
+    return _Node(k, n1.dim + n2.dim, (lambda: (n1.set(), n2.set())), _read, list(n1.resource_cols) + [d1 + c for c in n2.resource_cols], "product(%s,%s)" % (n1.label, n2.label))
+
+
+def _node_range(E, dim, node, start):
+    k = E.K.RangeKernelFunction(dim, node.lib, start)
+    k.collect_params().initialize()
+    a, b = start, start + node.dim
+
+    def _read():
+        r = node.read()
+        return dict(r, kfun=(lambda A, B: r["kfun"](np.asarray(A)[:, a:b], np.asarray(B)[:, a:b])))
+
+    return _Node(k, dim, node.set, _read, [start + c for c in node.resource_cols], "range(%d,%s,start=%d)" % (dim, node.label, start))
+
+
+def _build_warped_xdiag(E, kind, d, rs, mode, out):
+    c = E.const
+    if kind == "warped-expdecay":
+        assert d >= 2
+        inner = _node_expdecay(E, d, rs, mode)
+    elif kind == "warped-product-expdecay":
+        assert d >= 3
+        d1 = int(rs.randint(1, d - 1))  # the other factor has dimension d - d1 >= 2 resp. d1 + 1 >= 2
+        if rs.uniform() < 0.5:
+            inner = _node_product(E, _node_matern(E, d1, rs, mode), _node_expdecay(E, d - d1, rs, mode))
+        else:
+            inner = _node_product(E, _node_expdecay(E, d - d1, rs, mode), _node_matern(E, d1, rs, mode))
+    else:
+        assert d >= 3
+        dk = int(rs.randint(2, d))  # 2 .. d - 1
+        start = int(rs.randint(0, d - dk + 1))
+        inner = _node_range(E, d, _node_expdecay(E, dk, rs, mode), start)
+    assert inner.dim == d and len(inner.resource_cols) == 1
+    assert inner.lib.diagonal_depends_on_X(), "inner kernel diagonal must depend on X"
+    rc = inner.resource_cols[0]
+    # warped coordinate ranges: everything / only the resource coordinate / two separate ranges, one of them the
+    # resource coordinate / a run containing the resource coordinate / (rarely) only coordinates the diagonal ignores
+    layouts = [[(0, d)], [(rc, rc + 1)], [(0, d)]]
+    others = [j for j in range(d) if j != rc]
+    if d >= 3:
+        o = others[int(rs.randint(len(others)))]
+        layouts.append(sorted([(o, o + 1), (rc, rc + 1)]) if abs(o - rc) > 1 else [(min(o, rc), max(o, rc) + 1)])
+    lo_ = int(rs.randint(0, rc + 1))
+    hi_ = int(rs.randint(rc + 1, d + 1))
+    layouts.append([(lo_, hi_)])
+    if rs.uniform() < 0.15:
+        o = others[int(rs.randint(len(others)))]
+        layouts = [[(o, o + 1)]]
+    ranges = [tuple(r) for r in layouts[int(rs.randint(len(layouts)))]]
+    warpings = [E.W.Warping(d, r) for r in ranges]
+    k = E.W.WarpedKernel(inner.lib, warpings)
+    k.collect_params().initialize()
+    assert k.diagonal_depends_on_X()
+    out["plain"] = k
+    out["expected_ranges"] = [tuple(r) for r in ranges]
+    out["xdiag"] = True
+    out["resource_col"] = rc
+    out["resource_warped"] = any(a <= rc < b for a, b in ranges)
+
+    def _names(kidx, size, kind_):
+        pref = "warping_" if len(ranges) == 1 else "warping%d_" % kidx
+        return [pref + ("power_" + kind_ if size == 1 else "power_%s_%d" % (kind_, i)) for i in range(size)]
+
+    def _set():
+        inner.set()
+        vals = dict(k.get_params())
+        for kidx, (a, b) in enumerate(ranges):
+            for kind_ in ("a", "b"):
+                for nm in _names(kidx, b - a, kind_):
+                    assert nm in vals, (nm, sorted(vals))
+                    vals[nm] = _draw(rs, c.WARPING_LOWER_BOUND, c.WARPING_UPPER_BOUND, mode, 0.5, 2.0)
+        k.set_params(vals)
+
+    def _read():
+        got = k.get_params()
+        ri = inner.read()
+        pa = [[_f(got[nm]) for nm in _names(kidx, b - a, "a")] for kidx, (a, b) in enumerate(ranges)]
+        pb = [[_f(got[nm]) for nm in _names(kidx, b - a, "b")] for kidx, (a, b) in enumerate(ranges)]
+        wr = [(kidx, rc - a) for kidx, (a, b) in enumerate(ranges) if a <= rc < b]
+        params = {
+            "structure": "warped(%s)" % inner.label,
+            "inner": ri["params"],
+            "resource_coordinate": rc,
+            "ranges": [list(r) for r in ranges],
+            "power_a": pa,
+            "power_b": pb,
+            "resource_warping": [[pa[i][j], pb[i][j]] for i, j in wr],
+            "abs_scale": ri["abs_scale"],
+            "sqn": ri["sqn"],
+        }
+        kin = ri["kfun"]
+        return params, (lambda X1, X2: kin(ref_warp(X1, ranges, pa, pb), ref_warp(X2, ranges, pa, pb)))
+
+    out["set"], out["read"] = _set, _read
+    out["formula_clause"] = "warping-equals-formula"
+    out["gpr_ok"] = True
+    if rs.uniform() < 0.3:
+        out["outer_scale"] = float([0.3, 2.5][rs.randint(2)])
+        out["gpr_ok"] = False
 
 
 def build_mean(E, which, d, rs, kcfg):
@@ -735,6 +924,9 @@ def run_case(E, ctx, rs, case_id, kind, n, d, n_test, m, data_mode, mode, mean_k
         mean_desc = "scalar(%.6g)" % mv
     elif mean_kind == "expdecay":
         mean_ref = kcfg["mean_ref"]
+    if kcfg.get("xdiag") and any(abs(a_ - 1.0) > 0.05 or abs(b_ - 1.0) > 0.05 for a_, b_ in params["resource_warping"]):
+        # inner diagonal depends on X AND the coordinate it depends on is warped with a non-identity warping
+        ctx.xdiag_effective = getattr(ctx, "xdiag_effective", 0) + 1
     osc = kcfg["outer_scale"]
     plain = kcfg["plain"]
     # plain KernelFunction, or the documented tuple form (kernel, covariance_scale)
@@ -771,6 +963,7 @@ def run_case(E, ctx, rs, case_id, kind, n, d, n_test, m, data_mode, mode, mean_k
         float(np.max(np.diag(kplain_ref(Xall, Xall)))),
         float(params.get("covariance_scale", 0.0)),
         (float(params.get("gamma", 0.0)) + abs(float(params.get("meanx", 0.0)))) ** 2,
+        float(params.get("abs_scale", 0.0)),
     )
     kabs = 0.0 if eps == EPS_OWN else 1e-13 * osc * abs_scale
     ref = Dense(K, Ks, Kss, s2, mX, mXs, Y, eps_eff, kabs)
@@ -802,7 +995,7 @@ def run_case(E, ctx, rs, case_id, kind, n, d, n_test, m, data_mode, mode, mean_k
     fc = kcfg["formula_clause"]
     Klib = np.asarray(plain(Xall, Xall))
     if fc is not None:
-        if kind == "warped-matern":
+        if kcfg.get("expected_ranges") is not None:
             got_ranges = [(int(w.lower), int(w.upper)) for w in plain.warpings] if hasattr(plain, "warpings") else []
             ctx.check_bool(fc, "warped-coordinate-ranges", got_ranges == kcfg["expected_ranges"], {"got": got_ranges, "expected": kcfg["expected_ranges"]})
         ctx.check(fc, "k(Xall,Xall)", Klib, kplain_ref(Xall, Xall), ktol(Xall, Xall))
@@ -950,7 +1143,7 @@ def run_case(E, ctx, rs, case_id, kind, n, d, n_test, m, data_mode, mode, mean_k
 
 def _sqn(kcfg, params):
     """largest squared scaled distance (inflates the kernel tolerance for huge inverse bandwidths)"""
-    best = 0.0
+    best = float(params.get("sqn", 0.0))
     for key in ("inv_bw", "inv_bw1", "inv_bw2"):
         if key in params:
             best = max(best, float(np.sum(np.square(params[key]))))
@@ -1061,6 +1254,9 @@ KINDS = [
     ("expdecay", 2),
     ("own-rbf", 1),
     ("own-table", 1),
+    ("warped-expdecay", 2),
+    ("warped-product-expdecay", 3),
+    ("warped-range-expdecay", 3),
 ]
 
 
@@ -1082,6 +1278,7 @@ def _monitor(tier, seed):
     per_kind = 24 if tier == "quick" else 200
     ctx = Ctx(seed)
     ctx.nondiag_joint = 0
+    ctx.xdiag_effective = 0
     samples = []
     data_modes = ["random", "near-duplicates", "duplicates", "mixed", "corners"]
     param_modes = ["benign", "box", "benign", "edge", "box"]
@@ -1098,7 +1295,7 @@ def _monitor(tier, seed):
                 n, n_test, m = 1, 2, 1
             else:
                 n, n_test, m = int(rs.randint(1, 9)), int(rs.randint(1, 5)), int([1, 3][rs.randint(2)])
-            d = 1 if kind == "own-table" else int(rs.randint(dmin, 4))
+            d = 1 if kind == "own-table" else int(rs.randint(dmin, 5 if kind in XDIAG_KINDS else 4))
             data_mode = data_modes[(i + ki) % len(data_modes)]
             mode = param_modes[(i + 2 * ki) % len(param_modes)]
             if kind == "expdecay":
@@ -1125,6 +1322,8 @@ def _monitor(tier, seed):
         raise RuntimeError("clauses never exercised: %s" % missing)
     if ctx.nondiag_joint == 0:
         raise RuntimeError("no joint-sample case with a non-diagonal posterior covariance")
+    if ctx.xdiag_effective < 3 and not ctx.n_violations:
+        raise RuntimeError("fewer than 3 warped kernels with a non-identity warping on a coordinate the inner diagonal depends on")
     worst = {k: round(v[0], 4) for k, v in sorted(ctx.worst.items())}
     samples = samples[:3]
     samples.append({"worst_deviation_over_tolerance_per_clause": worst, "comparisons_per_clause": dict(ctx.counts)})
@@ -1135,16 +1334,18 @@ def _monitor(tier, seed):
         "violations": ctx.violations,
         "samples": samples,
         "summary": (
-            "%d cases (seed %d, tier %s): kernels %s; n 1..8, d 1..3, n_test 1..4, m in {1,3}, <=3 successive updates; "
+            "%d cases (seed %d, tier %s): kernels %s; n 1..8, d 1..3 (1..4 for warped composites), n_test 1..4, m in {1,3}, <=3 successive updates; "
             "inputs in the unit cube incl. exact/near duplicates and corners; parameters benign / log-uniform over / at the "
             "bounds of their boxes; noise raised until eps*cond<=1e-3 (eps 1e-8 library kernels, 1e-13 own kernels); "
-            "%d joint-sample cases with non-diagonal covariance; %d failed comparisons%s"
+            "%d joint-sample cases with non-diagonal covariance; %d warped kernels whose inner diagonal depends on a "
+            "coordinate warped with parameters != 1; %d failed comparisons%s"
             % (
                 n_cases,
                 seed,
                 tier,
                 ",".join(k for k, _ in KINDS),
                 ctx.nondiag_joint,
+                ctx.xdiag_effective,
                 ctx.n_violations,
                 (" " + str(dict(sorted(ctx.by_clause.items()))) + " (at most 2 stored per clause and kernel kind)") if ctx.n_violations else "",
             )
